@@ -232,3 +232,14 @@ Definition dump_eqb (a b : dump) : bool :=
   list_eqb (pair_eqb Z.eqb (pair_eqb (pair_eqb Z.eqb Z.eqb) Z.eqb)) sa sb &&
   list_eqb (pair_eqb Z.eqb lines_eqb) la lb &&
   list_eqb (pair_eqb Z.eqb (pair_eqb (pair_eqb (pair_eqb Z.eqb Bool.eqb) Z.eqb) Z.eqb)) va vb.
+
+(* the model as an acceptor of implementation traces (used by Corr.agree): along the trace the
+   dump must be the model's, the result one of the model's admissible results *)
+Fixpoint agree_from (s : st) (ops : list op) (bs : list (res * dump)) : bool :=
+  match ops, bs with
+  | [], [] => true
+  | o :: r, (rs, d) :: br =>
+      let '(s1, adm) := step s o in
+      existsb (res_eqb rs) adm && dump_eqb (dump_of s1) d && agree_from s1 r br
+  | _, _ => false
+  end.
